@@ -15,3 +15,13 @@
 #define QPointer vqt::VPointer
 #define QAtomicInt vqt::VAtomicInt
 #define QAtomicPointer vqt::VAtomicPointer
+#define QAtomicInteger vqt::VAtomicInteger
+#define QBasicAtomicInt vqt::VAtomicInt
+#define QBasicAtomicInteger vqt::VAtomicInteger
+#define QBasicAtomicPointer vqt::VAtomicPointer
+#define QReadWriteLock vqt::VReadWriteLock
+#define QReadLocker vqt::VReadLocker
+#define QWriteLocker vqt::VWriteLocker
+#define QSemaphore vqt::VSemaphore
+#define QWaitCondition vqt::VWaitCondition
+#define QMetaObject vqt::VMetaObject
